@@ -363,6 +363,35 @@ fn list_dir(inst: &Inst, ino: u64, orc: &mut Vec<(String, String)>) -> Result<Ve
     Ok(out)
 }
 
+/// the attributes READDIRPLUS reports for `name` in directory `ino` (None = not listed)
+fn entry_via_readdirplus(inst: &Inst, ino: u64, name: char) -> Result<Option<stat64>, String> {
+    let ctx = Context::default();
+    let (h, _) = inst.fs.opendir(&ctx, ino, libc::O_RDONLY as u32).map_err(|e| errno(&e))?;
+    let h = h.unwrap_or(0);
+    let mut found: Option<stat64> = None;
+    let mut off = 0u64;
+    loop {
+        let mut got = 0;
+        let r = inst.fs.readdirplus(&ctx, ino, h, 4096, off, &mut |d: DirEntry, e: Entry| {
+            got += 1;
+            off = d.offset;
+            if d.name == name.to_string().as_bytes() {
+                found = Some(e.attr);
+            }
+            Ok(152 + d.name.len())
+        });
+        if let Err(e) = r {
+            let _ = inst.fs.releasedir(&ctx, ino, 0, h);
+            return Err(errno(&e));
+        }
+        if got == 0 {
+            break;
+        }
+    }
+    inst.fs.releasedir(&ctx, ino, 0, h).map_err(|e| errno(&e))?;
+    Ok(found)
+}
+
 fn getx(inst: &Inst, ino: u64) -> Result<u32, String> {
     let ctx = Context::default();
     match inst.fs.getxattr(&ctx, ino, &CString::new(host::XNAME).unwrap(), 64) {
@@ -550,11 +579,20 @@ fn do_op(inst: &Inst, io: &Io, op: &[&str], orc: &mut Vec<(String, String)>) -> 
                 if kind_of(&pst) != 'd' {
                     return Err("e20".into());
                 }
-                let e = fs.lookup(&ctx, pino, &cname(c)).map_err(|e| errno(&e))?;
-                if e.inode == 0 {
-                    return Err("e2".into());
-                }
-                let k = kind_of(&e.attr);
+                // "nl": the client knows the entry from READDIRPLUS only (no LOOKUP of the child
+                // before the request, as the kernel does with a dentry primed by readdirplus)
+                let k = if op.get(2).copied() == Some("nl") {
+                    match entry_via_readdirplus(inst, pino, c)? {
+                        Some(st) => kind_of(&st),
+                        None => return Err("e2".into()),
+                    }
+                } else {
+                    let e = fs.lookup(&ctx, pino, &cname(c)).map_err(|e| errno(&e))?;
+                    if e.inode == 0 {
+                        return Err("e2".into());
+                    }
+                    kind_of(&e.attr)
+                };
                 if op[0] == "unlink" {
                     if k == 'd' {
                         return Err("e21".into());
@@ -1243,9 +1281,9 @@ fn gen_case(r: &mut Prng, prop: &str) -> String {
             if !d.is_empty() {
                 // empty a directory, remove it, re-create it
                 for c in NAMES {
-                    ops.push(format!("{},{}{}", if r.chance(4, 5) { "unlink" } else { "rmdir" }, d, c));
+                    ops.push(format!("{},{}{}{}", if r.chance(4, 5) { "unlink" } else { "rmdir" }, d, c, if r.chance(1, 3) { ",nl" } else { "" }));
                 }
-                ops.push(format!("rmdir,{}", d));
+                ops.push(format!("rmdir,{}{}", d, if r.chance(1, 3) { ",nl" } else { "" }));
                 if r.chance(3, 4) {
                     ops.push(format!("mkdir,{},{:o}", d, r.pick(&DMODES)));
                 } else {
@@ -1271,9 +1309,9 @@ fn gen_case(r: &mut Prng, prop: &str) -> String {
         } else if k < 43 {
             format!("link,{},{}", rand_path(r, &known, 3), child_path(r, &dirs, &known))
         } else if k < 55 {
-            format!("unlink,{}", rand_path(r, &known, 3))
+            format!("unlink,{}{}", rand_path(r, &known, 3), if r.chance(1, 3) { ",nl" } else { "" })
         } else if k < 64 {
-            format!("rmdir,{}", rand_path(r, &dirs, 3))
+            format!("rmdir,{}{}", rand_path(r, &dirs, 3), if r.chance(1, 3) { ",nl" } else { "" })
         } else if k < 68 {
             format!("open,{},{}", rand_path(r, &known, 3), r.pick(&["r", "w", "rw", "wt", "wa", "rt", "ra"]))
         } else if k < 78 {
